@@ -431,7 +431,7 @@ pub fn guarded(line: &str, direct: fn(&str) -> String) -> String {
         let wk = w.as_mut().unwrap();
         let sent = writeln!(wk.stdin, "{}", line.replace('\n', " ")).and_then(|_| wk.stdin.flush());
         // the 10^5-link chains legitimately take a few hundred ms: always the full limit
-        let limit = if STRIKES.with(|c| c.get()) >= WATCHDOG_STRIKES && !line.starts_with("bigchain") {
+        let limit = if STRIKES.with(|c| c.get()) >= WATCHDOG_STRIKES && !line.starts_with("big") {
             WATCHDOG_AFTER_MS
         } else {
             WATCHDOG_MS
